@@ -146,4 +146,36 @@ theorem insItems_ok (row2 : Int) (h2 : 1 ≤ row2) (its : List SqItem)
     obtain ⟨q0, hq0, rfl⟩ := hq
     exact (uncut_ok row2 h2 q0 (h it0 hm q0 hq0)).2
 
+theorem dupMergeApply_keeps (src row2 : Int) (ms : List (Option Rect)) :
+    ∀ (s : Sheet) (st : Status) (s' : Sheet), dupMergeApply src row2 ms s = (st, s') →
+      s'.cfs = s.cfs ∧ s'.dvs = s.dvs := by
+  induction ms with
+  | nil => intro s st s' h; cases h; exact ⟨rfl, rfl⟩
+  | cons m t ih =>
+    intro s st s' h
+    cases m with
+    | none => exact ih s st s' h
+    | some q =>
+      unfold dupMergeApply at h
+      by_cases hc : q.y1 = q.y2 ∧ q.y1 = src
+      · rw [if_pos hc] at h
+        dsimp only at h
+        by_cases hk : rectOk ⟨if q.x2 < q.x1 then q.x2 else q.x1, row2, if q.x2 < q.x1 then q.x1 else q.x2, row2⟩ = true
+        · rw [if_pos hk] at h
+          have hh := ih _ st s' h
+          exact hh
+        · rw [if_neg hk] at h
+          cases h; exact ⟨rfl, rfl⟩
+      · rw [if_neg hc] at h
+        exact ih s st s' h
+
+/-- `duplicateMergeCells` leaves conditional formats and data validations alone -/
+theorem dupMerges_keeps (row row2 : Int) (s : Sheet) (st : Status) (s' : Sheet)
+    (h : dupMerges row row2 s = (st, s')) : s'.cfs = s.cfs ∧ s'.dvs = s.dvs := by
+  unfold dupMerges at h
+  split at h
+  · cases h; exact ⟨rfl, rfl⟩
+  · cases h; exact ⟨rfl, rfl⟩
+  · exact dupMergeApply_keeps _ _ _ _ _ _ h
+
 end XlModel.Adjust
